@@ -354,6 +354,27 @@ fn build_cases(tier: Tier) -> Vec<(String, Vec<Case>)> {
             }
         }
     }
+    // repeated verbosity flags, clustered and separate, short and long, in front of and behind the
+    // subcommand, for every subcommand
+    let vcf_plain = Arc::new(render(&small_callset(), Container::Vcf, &Layout::Single));
+    for (sub, input) in [(vec!["view"], &sp2), (vec!["fold"], &sp2), (vec!["stat", "-s", "sum"], &sp2), (vec!["create"], &vcf_plain)] {
+        for flags in [
+            vec!["-q"], vec!["-qq"], vec!["-qqq"], vec!["-qqqq"], vec!["-qqqqqqqq"], vec!["-q", "-q", "-q"], vec!["--quiet", "--quiet", "--quiet"], vec!["-v"], vec!["-vv"], vec!["-vvv"], vec!["-vvvv"],
+            vec!["-vvvvvvvv"], vec!["-v", "-v", "-v", "-v"], vec!["--verbose", "--verbose", "--verbose", "--verbose"], vec!["-q", "-v"], vec!["-qqq", "-v"], vec!["-vvv", "-qq"],
+        ] {
+            let mut behind: Vec<&str> = sub.clone();
+            behind.extend(flags.iter().copied());
+            g.push(case(&behind, input, "verbosity-repeated", format!("{}", behind.join(" "))));
+        }
+    }
+    // samples files with blank, whitespace-only and oddly separated lines
+    for (k, content) in ["", "\n", " \n", "\t\n", "s0\n \n", "s0\n\t\n", "s0\r\n \r\n", "s0\tA\n\ns1\tB\n", "s0 A\n", "s0\t\n", "\ts0\n", "s0\tA\tB\n", "\u{feff}s0\n", "s0\n\n\n", "   s0   \n", "s0\ts0\n"].iter().enumerate() {
+        let path = format!("{}/c17-samples-{k}.txt", crate::cli::SCRATCH_ROOT);
+        let _ = std::fs::create_dir_all(crate::cli::SCRATCH_ROOT);
+        let _ = std::fs::write(&path, content);
+        g.push(case(&["create", "-S", &path], &vcf_plain, "samples-file-odd-lines", format!("create -S <file holding {content:?}>")));
+        g.push(case(&["create", "-S", &path, "-p", "1"], &vcf_plain, "samples-file-odd-lines", format!("create -p 1 -S <file holding {content:?}>")));
+    }
     groups.push(("(iii) option values at and beyond bounds".into(), g));
 
     // (iv) absurd declared shapes
